@@ -145,6 +145,12 @@ def check_menu(mods, ref, opts, ctx, canary=False):
             info = saved
             keys = sorted(set(class_key(info, f) for f in ref.fields), key=str.lower)
             species = sorted(re.sub(r'\)$', '', re.sub(r'^Y\(', '', f)) for f in ref.fields if re.search(info['Y'][0], f))
+            if 'Species found in file:' not in out and 'Fields found in file:' not in out:
+                # the headings were reworded: judge by occurrences alone (every class key / species exactly once as a word)
+                words = [w for l in out.splitlines() if not l.startswith('+') for w in l.split()]
+                for name in list(keys) + list(species):
+                    obl.holds(words.count(name) == 1, '%s: %r occurs %d times in the listing' % (what, name, words.count(name)))
+                return obl
             blocks = out.split('Species found in file:')
             vtxt = blocks[0].split('Fields found in file:')[-1]
             vnames = [w for l in vtxt.splitlines() if not l.startswith('+') for w in l.split()]
